@@ -643,6 +643,11 @@ pub(crate) async fn fashare(
     // 3 c) Compute bi to determine di_bi and send to all parties.
     let mut bi = [false; RHO];
     let mut di_bi = vec![0; RHO];
+    for k in (0..n).filter(|k| *k != i) {
+        if dm_k[k].len() != RHO || dm_k[k].iter().any(|dm| dm.len() != 1 + (n - 1) * 16) {
+            return Err(Error::InvalidLength);
+        }
+    }
     for r in 0..RHO {
         for k in (0..n).filter(|k| *k != i) {
             if dm_k[k][r][0] > 1 {
